@@ -270,11 +270,18 @@ static int same_serializations(struct json_object *a, struct json_object *b)
 static void op_copy(const char *text, const char *repr)
 {
 	struct arena ar = {0};
+	/* repr letter p: the process-wide string hash is switched between building the source and copying it (each table keeps
+	 * the function it was created with; a copy must be built with its own table's function) */
+	int swap = strchr(repr, 'p') != NULL;
 	struct json_object *src = build(text, repr, &ar);
 	struct json_object *dst = NULL;
+	if (swap)
+		json_global_set_string_hash(JSON_C_STR_HASH_PERLLIKE);
 	errno = 0;
 	int rc = json_object_deep_copy(src, &dst, NULL);
 	int e = errno;
+	if (swap)
+		json_global_set_string_hash(JSON_C_STR_HASH_DFLT);
 	if (rc != 0 || !dst)
 	{
 		printf("rc=%d dst=%s ## errno=%s\n", rc, dst ? "set" : "NULL", errname(e));
